@@ -111,6 +111,9 @@ type FakeConn struct {
 	// FailWrites: the next n Write calls fail with an I/O error and write nothing (fault injection).
 	FailWrites   int
 	FailedWrites int
+	// WriteCap > 0: a Write blocks while the peer has that many unread segments queued (a collector
+	// that is alive but not reading, socket buffers full); closing either side unblocks it.
+	WriteCap int
 }
 
 func (c *FakeConn) avail() int {
@@ -157,7 +160,9 @@ func (c *FakeConn) Write(b []byte) (int, error) {
 	if vsched.Poisoned() {
 		return 0, net.ErrClosed
 	}
-	vsched.VisibleOp("write", "Write "+c.Name, func() bool { return true })
+	vsched.VisibleOp("write", "Write "+c.Name, func() bool {
+		return c.WriteCap == 0 || c.closed || c.peer == nil || c.peer.closed || len(c.peer.in) < c.WriteCap
+	})
 	if c.closed {
 		c.WritesAfterClose++
 		return 0, &net.OpError{Op: "write", Net: c.network, Err: net.ErrClosed}
